@@ -39,6 +39,11 @@ class Atom(object):
     def __init__(self, fileobj, level=0):
         """May raise AtomError"""
 
+        if level > 64:
+            # real files nest a handful of levels deep; don't let crafted
+            # ones exhaust the interpreter's recursion limit
+            raise AtomError("atoms nested too deeply")
+
         self.offset = fileobj.tell()
         try:
             self.length, self.name = struct.unpack(">I4s", fileobj.read(8))
